@@ -60,6 +60,9 @@ func sliceElems(st *pstate, s *Sym, deref *Sym) ([]*Sym, bool) {
 	if s.IsNil() {
 		return nil, true
 	}
+	if s.K == sSlice && (s.Str == ":const(0)" || s.Str == "const(0):const(0)") {
+		return nil, true // make([]T, 0, n) with constant n: an empty slice of a local array
+	}
 	if s.K == sSlice && s.Str == ":" {
 		if deref == nil {
 			if al, path, ok := localPath(s.A); ok {
@@ -86,6 +89,13 @@ func sliceElems(st *pstate, s *Sym, deref *Sym) ([]*Sym, bool) {
 			out = append(out, deref.F[k])
 		}
 		return out, true
+	}
+	if s.K == sFresh {
+		if mk, ok := s.V.(*ssa.MakeSlice); ok {
+			if c, ok := mk.Len.(*ssa.Const); ok && c.Value != nil && c.Value.ExactString() == "0" {
+				return nil, true // make([]T, 0, n)
+			}
+		}
 	}
 	if s.K == sCall {
 		for i := len(st.events) - 1; i >= 0; i-- {
@@ -519,6 +529,18 @@ func derivedFromOptions(v ssa.Value, own *ssa.Parameter, seen map[ssa.Value]bool
 		return false, "nil / no options"
 	case *ssa.Slice:
 		return false, "a re-slice of the options (shares the caller's backing array)"
+	case *ssa.MakeSlice:
+		// make(…) + copy(x, own): a fresh copy
+		if refs := x.Referrers(); refs != nil {
+			for _, u := range *refs {
+				if c, ok := u.(*ssa.Call); ok {
+					if bi, ok := c.Call.Value.(*ssa.Builtin); ok && bi.Name() == "copy" && len(c.Call.Args) == 2 && c.Call.Args[0] == ssa.Value(x) && c.Call.Args[1] == ssa.Value(own) {
+						return true, ""
+					}
+				}
+			}
+		}
+		return false, "a new slice that is not filled from the caller's options"
 	}
 	return false, fmt.Sprintf("%T", v)
 }
